@@ -177,8 +177,13 @@ def scratch(rel, source):
     d = tempfile.mkdtemp(prefix="mscan_", dir="/dev/shm")
     shutil.copytree(os.path.join(REPO, "infretis"), os.path.join(d, "infretis"), ignore=shutil.ignore_patterns("__pycache__"))
     for item in ("examples", "test", "pyproject.toml"):
-        if os.path.exists(os.path.join(REPO, item)):
-            os.symlink(os.path.join(REPO, item), os.path.join(d, item))
+        # copied, never linked: a mutant may delete or overwrite what it is pointed at (one did: it removed the GROMACS
+        # example inputs of /repo through a link, which made every later test run of the scan fail at collection)
+        src = os.path.join(REPO, item)
+        if os.path.isdir(src):
+            shutil.copytree(src, os.path.join(d, item), ignore=shutil.ignore_patterns("__pycache__"))
+        elif os.path.exists(src):
+            shutil.copy(src, os.path.join(d, item))
     with open(os.path.join(d, rel), "w") as fh:
         fh.write(source)
     return d
